@@ -119,10 +119,16 @@ def run_case(case):
                 elif edit in ("join_pred_missing", "unsupported_join_pred", "join_engines"):
                     if rel.is_join_identity:
                         continue  # joining a join identity is documented to return the other operand
-                    other_engine = rel.engine if edit != "join_engines" else next(e for e in engines.values() if e is not rel.engine)
+                    if edit == "join_engines":
+                        other_engine = next(e for e in engines.values() if e is not rel.engine)
+                    elif edit == "join_pred_missing":
+                        other_engine = rng.choice(list(engines.values()))  # also across engines (backtracking routes)
+                    else:
+                        other_engine = rel.engine
                     fixed = other_engine.make_leaf({T("a")}, iteration.RowSequence([{T("a"): 1}]) if isinstance(other_engine, iteration.Engine) else db.make_table("fx", [T("a")], [{T("a"): 1}]), name=f"FX{nreq}")
                     if edit == "join_pred_missing":
-                        free2 = next(x for x in KEYS + "xyz" if x not in cols and x != "a")
+                        # prefer a column that exists upstream but is hidden here
+                        free2 = missing if missing != "a" else next(x for x in KEYS + "xyz" if x not in cols and x != "a")
                         p = exprs.plib(["cmp", "eq", ["ref", free2], ["lit", 0]])
                         calls = [({"bt": bt, "tr": tr}, lambda kw, p=p: rel.join(fixed, p, **kw)) for bt in (True, False) for tr in (False, True)]
                     elif edit == "unsupported_join_pred":
